@@ -24,6 +24,12 @@ def _spaces(r, quick):
             out.append({"a": list(a), "b": list(b[0])})
     for _ in range(C.T(20, 200)):
         out.append(gen.gen_space(r, ndims=r.choice([1, 2, 3, 4, 5]), sizes=[1, 2, 3, 5, 10, 31, 50]))
+    # hazards of a nearest-value lookup: neighbours closer than any sensible tolerance, huge and tiny magnitudes, values around zero
+    eps = 2.0 ** -55
+    for a in ([1.0, 1.0 + 1e-9, 1.0 - 1e-9, 2.0], [1e15, 1e15 + 1, 1e15 + 2, 1e15 - 1], [-1e-12, 0.0, 1e-12], [0.1, 0.1 + eps, 0.1 - eps],
+              [1e-300, 2e-300, -1e-300], [-5.0, -5.0 - 1e-12, -4.0], [3.0000001, 3.0, 2.9999999]):
+        out.append({"a": list(a)})
+        out.append({"a": list(reversed(a)), "b": [2.5, 0.5]})
     for _ in range(C.T(6, 40)):   # duplicate values: outside the property's premise, correspondence only
         out.append(gen.gen_space(r, ndims=r.choice([1, 2]), sizes=[3, 5, 10], kinds=("mixed",), allow_dups=True))
     return out
